@@ -1,6 +1,6 @@
 PROPERTY = "C02"
 LEVEL = "proof"
-LEAN_MODULES = ["CifModel.Props.C02", "CifModel.Props.C02Doc"]
+LEAN_MODULES = ["CifModel.Props.C02", "CifModel.Props.C02Doc", "CifModel.Props.ReviewC02"]
 REQUIRED = ["CifModel.C02_text_protocol", "CifModel.C02_fold_line_progress", "CifModel.C02_text_total",
             "CifModel.C02_flags_semis", "CifModel.C02_char_text_roundtrip",
             "CifModel.C02_analysis_facts", "CifModel.C02_write_char_text",
